@@ -398,20 +398,21 @@ func (r *run) judgeNext(before []seatView, dBefore int, res opResult) {
 	if len(P) < 2 {
 		r.viol("C17", "next-accepted-but-fewer-than-two-playable", fmt.Sprintf("after Next() playable seats are %v", P))
 	}
-	if len(B) >= 2 {
-		start := dBefore
-		if start < 0 {
-			start = n - 1 // no dealer yet: from seat 0
+	if len(B) >= 2 && dBefore < 0 {
+		// no previous dealer: the statement measures from the previous
+		// dealer, so the first button may go to any seat that could play
+		r.probe("first-dealer")
+		if !inInts(B, d) {
+			r.viol("C17", "first-button-on-a-seat-that-could-not-play", fmt.Sprintf("first dealer %d, playable before %v", d, B))
 		}
+	} else if len(B) >= 2 {
+		start := dBefore
 		want := -1
 		for _, id := range clockwiseFrom(start, n) {
 			if inInts(B, id) && id != dBefore {
 				want = id
 				break
 			}
-		}
-		if dBefore < 0 {
-			r.probe("first-dealer")
 		}
 		if d != want {
 			sig := "button-skipped-or-moved-wrongly"
